@@ -247,12 +247,13 @@ pub fn arb_cscenario(u: &mut Unstructured, p: &crate::props::cgen::CProfile) -> 
     };
     let w = [
         p.w_step, p.w_drain, p.w_newcall, p.w_reply, p.w_dup, p.w_unknown, p.w_dropcall, p.w_clone, p.w_drophandle, p.w_advance,
-        p.w_advance_to, p.w_budget, p.w_fault, p.w_peerclose, p.w_closepending,
+        p.w_advance_to, p.w_budget, p.w_fault, p.w_peerclose, p.w_closepending, p.w_stepcoop,
     ];
     let n = u.int_in_range(0..=p.max_ops.saturating_sub(1))?;
     let mut ops = vec![];
     for _ in 0..n {
         ops.push(match pick_weighted(u, &w)? {
+            15 => COp::StepCoop { sel: u.arbitrary()?, budget: u.int_in_range(0..=5)? },
             0 => COp::Step { sel: u.arbitrary()? },
             1 => COp::Drain,
             2 => COp::NewCall {
@@ -322,7 +323,7 @@ pub fn fuzz_sched_client(data: &[u8]) {
         "C03" => judge("C03", c03::check(&sc), js),
         "C05" => judge("C05", c05::check(&sc), js),
         "C09" => judge("C09", c09::check_client(&sc, flag % 3 == 0), js),
-        "C10" => judge("C10", c10::check_client(&sc), js),
+        "C10" => judge("C10", c10::check_client_opt(&sc, if flag % 4 == 0 { Some((flag / 4) % 6) } else { None }), js),
         "C11" => judge("C11", c11::check_client(&sc, if flag % 3 == 0 { Some((flag / 3) % 40) } else { None }), js),
         _ => judge("C14", c14::check_client(&sc), js),
     }
